@@ -1,5 +1,8 @@
 import FeatModel.Model.LocalFE
 import FeatModel.Lemmas.C15Poly
+import FeatModel.Lemmas.C15Subst
+import FeatModel.Lemmas.C15Lift1
+import FeatModel.Lemmas.C16_trace
 import FeatModel.Lemmas.C16_identities
 import Mathlib.Tactic.Ring
 /-!
@@ -75,5 +78,74 @@ theorem asCoded_eq_exact (r : Rule) (simplex : Bool) (d : Nat) (ms : List FeatMo
   congr 1
   funext i j
   exact local_exact r simplex d ms c.detJ (c.F i j) hex (hF i j)
+
+theorem quadF_congr (r : Rule) (c : Rat) (f g : List Rat → Rat) (h : ∀ x ∈ r.x, f x = g x) :
+    quadF r c f = quadF r c g := by
+  unfold quadF
+  congr 1
+  apply List.map_congr_left
+  intro q hq
+  rw [h q.2 (List.of_mem_zip hq).2]
+
+theorem rabs_of_nonneg (q : Rat) (h : 0 ≤ q) : FeatModel.FE.rabs q = q := by
+  unfold FeatModel.FE.rabs
+  split
+  · rename_i hlt; exact absurd h (not_le.mpr hlt)
+  · rfl
+
+theorem rabs_of_nonpos (q : Rat) (h : q ≤ 0) : FeatModel.FE.rabs q = -q := by
+  unfold FeatModel.FE.rabs
+  split
+  · rfl
+  · rename_i hnlt
+    have : q = 0 := le_antisymm h (not_lt.mp hnlt)
+    simp [this]
+
+/-- point-dependent `jac_det = |det J|`: with a determinant that is non-negative in the cubature points the local entry is
+the cubature sum of the polynomial `F · det J` -/
+theorem localEntryVar_nonneg (r : Rule) (D F : Poly) (h : r.detNonneg D = true) :
+    localEntryVar r D F = localEntry r 1 (mul F D) := by
+  unfold localEntryVar localEntry
+  apply quadF_congr
+  intro x hx
+  simp only [Rule.detNonneg, List.all_eq_true, decide_eq_true_eq] at h
+  rw [rabs_of_nonneg _ (h x hx)]
+  simp [evalAt, eval_mul]
+
+theorem localEntryVar_nonpos (r : Rule) (D F : Poly) (h : r.detNonpos D = true) :
+    localEntryVar r D F = localEntry r 1 (mul F (smul (-1) D)) := by
+  unfold localEntryVar localEntry
+  apply quadF_congr
+  intro x hx
+  simp only [Rule.detNonpos, List.all_eq_true, decide_eq_true_eq] at h
+  rw [rabs_of_nonpos _ (h x hx)]
+  simp [evalAt, eval_mul, eval_smul]
+
+open FeatModel.TraceOrient in
+/-- facet integral: with the orientation code of the stored facet row the facet local entry as coded is the cubature sum
+of the polynomial `(P ∘ stored facet parametrisation) · D_f` over the facet's reference cell, hence its exact integral for a
+rule that is exact on the monomials of that polynomial -/
+theorem facetEntry_exact (r : Rule) (k : FeatModel.FE.Kind) (l : Nat) (π : List Nat) (c : Nat) (Df P : Poly)
+    (hl : l < FeatModel.FE.numFaces k 3 2) (hπ : π ∈ syms k) (hcons : consistentAll k = true)
+    (hc : orientCode k (FeatModel.FE.storedRow k 3 2 l π) (canonFace k l) = some c)
+    (hdet : r.detNonneg Df = true) (simplex : Bool) (ms : List FeatModel.Poly.Mono)
+    (hex : r.exactOn simplex 2 ms = true)
+    (hF : monosIn (mul (substL (storedMap k (FeatModel.FE.storedRow k 3 2 l π)) P) Df) ms = true) :
+    facetEntry r k l c Df P =
+      some (cellInt simplex 2 1 (mul (substL (storedMap k (FeatModel.FE.storedRow k 3 2 l π)) P) Df)) := by
+  simp only [consistentAll, List.all_eq_true, List.mem_range] at hcons
+  have h1 := hcons l hl π hπ
+  simp only [hc] at h1
+  unfold facetEntry
+  cases hm : facetMap k l c with
+  | none => simp [hm] at h1
+  | some ps =>
+    simp only [hm] at h1
+    simp only [Option.map_some, Option.some.injEq]
+    rw [← local_exact r simplex 2 ms 1 _ hex hF, ← localEntryVar_nonneg r Df _ hdet]
+    unfold localEntryVar
+    apply quadF_congr
+    intro s _
+    rw [polysEq_sound ps _ h1 s, FeatModel.FE.evalAt_substL']
 
 end C16L
